@@ -751,7 +751,10 @@ fn expr_to_asg_texpr(
         synast::Expr::ParenExpr(paren_expr) => paren_expr_to_asg_texpr(paren_expr, context),
 
         synast::Expr::BinExpr(bin_expr) => {
-            let synast_op = bin_expr.op_kind().unwrap();
+            // The parser accepts operators that are not OpenQASM 3 operators, for example `a..b`.
+            let Some(synast_op) = bin_expr.op_kind() else {
+                return not_impl_expr!(context, bin_expr);
+            };
             let left_syn = bin_expr.lhs();
             let right_syn = bin_expr.rhs();
 
